@@ -34,7 +34,7 @@ PodsSeq(g) ==
   IN Cat({n \in NodeIdsOf[g] : run[n] > 0}) \o [i \in 1..pend[g] |-> [cpu |-> 1, mem |-> 1, node |-> "", pending |-> TRUE, sched |-> FALSE]]
 
 GroupRec(g) == [cfg |-> CfgOf[g], order |-> SetToSortedSeq(DOMAIN api[g]), lag |-> FALSE, api |-> api[g], view |-> api[g], pods |-> PodsSeq(g),
-                asg |-> asg[g], pc |-> pc[g], ctl |-> ctl[g], accepted |-> accepted[g], tries |-> 0]
+                asg |-> asg[g], pc |-> pc[g], ctl |-> ctl[g], accepted |-> accepted[g], tries |-> 0, seenCpu |-> ctl[g].capCpu, seenMem |-> ctl[g].capMem]
 World == [now |-> now, dryAll |-> DryAll, alive |-> alive, gorder |-> Gs, groups |-> [g \in GSet |-> GroupRec(g)]]
 
 Ctl0(g) == [lockAt |-> Never, isLocked |-> FALSE, requested |-> 0, delta |-> 0, lastOut |-> Never, capCpu |-> 0, capMem |-> 0, tracker |-> <<>>,
